@@ -362,7 +362,7 @@ func cmdCheck(args []string) {
 		seed, _ = strconv.Atoi(s)
 	}
 	t0 := time.Now()
-	cr := &checkRun{prop: *prop, tier: *tier, repo: *repo, verifDir: *verif, timeout: 45, oblExec: map[*Obl]*Exec{},
+	cr := &checkRun{prop: *prop, tier: *tier, repo: *repo, verifDir: *verif, timeout: 60, oblExec: map[*Obl]*Exec{},
 		trusted: map[string]bool{}, abstracted: map[string]bool{}, contracts: map[string]bool{}}
 	if *tier == "thorough" {
 		cr.timeout = 120
